@@ -186,10 +186,14 @@ def ratio_distance(f_hz, fp_hz, nmax=64):
     Returns (kind, n, rel) with kind 'multiple' (ratio ~ n) or 'divisor' (ratio ~ 1/n).
     """
     r = abs(LD(f_hz)) / LD(fp_hz)
-    best = None
-    for n in range(1, nmax + 1):
-        for kind, target in (('multiple', LD(n)), ('divisor', LD(1) / LD(n))):
-            rel = abs(r - target) / target
-            if best is None or rel < best[2]:
-                best = (kind, n, rel)
+    n = np.arange(1, nmax + 1).astype(LD)
+    inv = LD(1) / n
+    rel_m = np.abs(r - n) / n
+    rel_d = np.abs(r - inv) / inv
+    i_m, i_d = int(np.argmin(rel_m)), int(np.argmin(rel_d))
+    # order of preference on ties: (1, multiple), (1, divisor), (2, multiple), ...
+    if rel_m[i_m] < rel_d[i_d] or (rel_m[i_m] == rel_d[i_d] and i_m <= i_d):
+        best = ('multiple', i_m + 1, rel_m[i_m])
+    else:
+        best = ('divisor', i_d + 1, rel_d[i_d])
     return best[0], best[1], float(best[2]), float(r)
